@@ -517,6 +517,12 @@ impl InterfaceImpl {
             .find(|method| method.name.v == name)
             .cloned()
     }
+
+    // the implementation of the `index`-th method declared by the interface.
+    // An implementation may list its methods in any order, so they are matched by name.
+    pub fn get_method_of_iface(&self, iface: &InterfaceDef, index: usize) -> Option<Rc<FuncDef>> {
+        self.get_method_by_name(&iface.methods.get(index)?.name.v)
+    }
 }
 
 impl std::hash::Hash for InterfaceImpl {
